@@ -520,7 +520,17 @@ def threads_stage(prop, tier, seed, races=6, race_threads=8):
     rng = random.Random(seed)
     limit = 500 if q else 6000
     if len(hist) > limit:
-        hist = rng.sample(hist, limit)
+        # always keep histories in which one thread runs a call and later a related one (smaller before larger parameter
+        # set, a recovery before a recovery with more rounds, a refused batch before a valid one, the same call twice)
+        pairs = {(0, 3), (1, 3), (2, 3), (0, 1), (0, 2), (5, 11), (6, 11), (10, 6), (10, 9), (8, 6), (4, 4), (9, 9), (4, 5)}
+
+        def related(h):
+            st_ = h["steps"]
+            return any(st_[i]["th"] == st_[j]["th"] and (st_[i]["call"], st_[j]["call"]) in pairs for i in range(len(st_)) for j in range(i + 1, len(st_)))
+        must = [h for h in hist if related(h)]
+        must = rng.sample(must, min(len(must), limit // 2))
+        rest = [h for h in hist if h not in must]
+        hist = must + rng.sample(rest, limit - len(must))
     hp = os.path.join(wd, "hist.ndjson")
     with open(hp, "w") as fh:
         for h in hist:
